@@ -191,7 +191,7 @@ func vsReplayEdgeCover(run *core.Run, prop string, crash bool) {
 	// such a view again, plain and tall (both cache levels)
 	gtags := "abc"
 	if run.Thorough() {
-		gtags = "abcde"
+		gtags = "abcd"
 	}
 	ghostCfg := vsCfgG(2, 1, gtags, true, true, true, true, true, true, "VIEW GenView\nACTION_CONSTRAINT EmitGhostEdge\n")
 	_, gst := vsGenerateAndReplayCfg(run, ghostCfg, nil, func(b *vsBehaviour, n int64, scratch string) {
